@@ -17,7 +17,7 @@ class SeqProp:
     spec_import = ""          # extra Require lines for the cases files
     spec_fn = None            # Gallina: list op -> list obs -> bool, evaluated on the IMPLEMENTATION's observations
     known_fn = None           # Gallina: list op -> list obs -> bool, true = case belongs to a recorded known finding
-    dom_fn = None             # optional (needs spec_fn and known_fn): Gallina list op -> bool, the domain of the uniform "spec holds of the
+    dom_fn = None             # optional (needs spec_fn): Gallina list op -> bool, the domain of the uniform "spec holds of the
                               # model" theorem; scenarios inside / outside are counted in the evidence, nothing is decided by it
     rule = ""
     assumptions = []
@@ -83,10 +83,13 @@ class SeqProp:
             extra += "\nDefinition chk_spec (c : list op * list obs) : bool := %s (fst c) (snd c).\nEval vm_compute in failing chk_spec LO cases." % spec
         if known:
             extra += "\nDefinition chk_known (c : list op * list obs) : bool := negb (%s (fst c) (snd c)).\nEval vm_compute in failing chk_known LO cases." % known
-        if self.dom_fn and spec and known:
+        if self.dom_fn and spec and not known:
+            # keep the positions of the printed lists fixed: an empty third list
+            extra += "\nDefinition chk_known (c : list op * list obs) : bool := true.\nEval vm_compute in failing chk_known LO cases."
+        if self.dom_fn and spec:
             extra += "\nDefinition chk_dom (c : list op * list obs) : bool := %s (fst c).\nEval vm_compute in failing chk_dom LO cases." % self.dom_fn
         failing, spec_failing, known_cases, errors = compare_cases3(pid, cases, self.spec_import, chk, extra)
-        outside_dom = list(LAST_FOURTH) if (self.dom_fn and spec and known) else None
+        outside_dom = list(LAST_FOURTH) if (self.dom_fn and spec) else None
         if errors:
             for p, e in errors[:2]: print("COQ ERROR in", p, e[-1500:])
         nontriv = set()
